@@ -1,4 +1,5 @@
-\* folding law over the expression space, boolean connectives over NULL / TRUE / FALSE included (one state)
+\* folding law over the expression space, boolean connectives over NULL / TRUE / FALSE included (one state);
+\* scan law: the value for a row of a scan is a function of that row alone
 CONSTANTS
   Stmts <- Stmts1
   StmtParams <- Params1
@@ -8,5 +9,5 @@ CONSTANTS
   MaxCalls = 0
 INIT Init
 NEXT Next
-INVARIANTS FoldLaw FoldLawFull
+INVARIANTS FoldLaw FoldLawFull ScanLaw
 CHECK_DEADLOCK FALSE
